@@ -9,11 +9,18 @@ import (
 )
 
 // Item is either a byte string (List == nil && !IsList) or a list of items.
+// An item with Raw != nil is an opaque, already-encoded value: Encode emits it
+// verbatim and Equal compares it byte-wise (used to model raw-value fields whose
+// content a decoder does not validate).
 type Item struct {
 	IsList bool
 	Str    []byte
 	List   []Item
+	Raw    []byte
 }
+
+// R makes an opaque pre-encoded item.
+func R(enc []byte) Item { return Item{Raw: append([]byte{}, enc...)} }
 
 // S makes a string item.
 func S(b []byte) Item { return Item{Str: append([]byte{}, b...)} }
@@ -38,6 +45,9 @@ func beLen(n int) []byte {
 
 // Encode returns the canonical encoding of an item.
 func Encode(it Item) []byte {
+	if it.Raw != nil {
+		return append([]byte{}, it.Raw...)
+	}
 	if !it.IsList {
 		if len(it.Str) == 1 && it.Str[0] < 0x80 {
 			return []byte{it.Str[0]}
@@ -176,6 +186,9 @@ func IsCanonicalInt(it Item, maxBytes int) bool {
 
 // Equal compares two items structurally.
 func Equal(a, b Item) bool {
+	if a.Raw != nil || b.Raw != nil {
+		return a.Raw != nil && b.Raw != nil && string(a.Raw) == string(b.Raw)
+	}
 	if a.IsList != b.IsList {
 		return false
 	}
@@ -195,6 +208,9 @@ func Equal(a, b Item) bool {
 
 // String renders an item for samples.
 func (it Item) String() string {
+	if it.Raw != nil {
+		return fmt.Sprintf("raw:%x", it.Raw)
+	}
 	if !it.IsList {
 		return fmt.Sprintf("%x", it.Str)
 	}
@@ -219,3 +235,181 @@ func WrapList(payload []byte) []byte {
 
 // EncodeString is Encode(S(b)).
 func EncodeString(b []byte) []byte { return Encode(Item{Str: b}) }
+
+// ---------------------------------------------------------------------------
+// Lenient parsing and classification (for forged / mutated inputs)
+
+// Class says how an input relates to canonical RLP.
+type Class int
+
+const (
+	// Canonical: exactly one canonical value (recursively), no trailing bytes.
+	Canonical Class = iota
+	// NonCanonical: well delimited under lenient rules (any length-of-length 1..8,
+	// leading zero length bytes, long form for payloads < 56, single bytes < 0x80
+	// wrapped as one-byte strings), exactly one value, but not canonical somewhere.
+	NonCanonical
+	// Malformed: not even leniently one well-delimited value (truncated, trailing
+	// bytes, nested elements overflowing their list, empty input).
+	Malformed
+)
+
+func (c Class) String() string {
+	switch c {
+	case Canonical:
+		return "canonical"
+	case NonCanonical:
+		return "noncanonical"
+	default:
+		return "malformed"
+	}
+}
+
+// SplitHeaderLenient parses the header of the first value of b without the
+// canonicality rules. canon reports whether the header itself is canonical.
+func SplitHeaderLenient(b []byte) (h Header, canon bool, err error) {
+	if len(b) == 0 {
+		return Header{}, false, ErrEmpty
+	}
+	p := b[0]
+	canon = true
+	long := func(n int, isList bool) error {
+		if len(b)-1 < n {
+			return ErrTruncated
+		}
+		v := new(big.Int).SetBytes(b[1 : 1+n])
+		if !v.IsUint64() || v.Uint64() > 1<<62 {
+			return ErrTruncated
+		}
+		if b[1] == 0 || v.Uint64() < 56 {
+			canon = false
+		}
+		h = Header{IsList: isList, HeaderLen: 1 + n, ContentLen: int(v.Uint64())}
+		return nil
+	}
+	switch {
+	case p < 0x80:
+		return Header{HeaderLen: 0, ContentLen: 1}, true, nil
+	case p <= 0xb7:
+		h = Header{HeaderLen: 1, ContentLen: int(p - 0x80)}
+		if h.ContentLen == 1 && len(b) > 1 && b[1] < 0x80 {
+			canon = false
+		}
+	case p <= 0xbf:
+		if err := long(int(p-0xb7), false); err != nil {
+			return h, false, err
+		}
+		if h.ContentLen == 1 && len(b) > h.HeaderLen && b[h.HeaderLen] < 0x80 {
+			canon = false
+		}
+	case p <= 0xf7:
+		h = Header{IsList: true, HeaderLen: 1, ContentLen: int(p - 0xc0)}
+	default:
+		if err := long(int(p-0xf7), true); err != nil {
+			return h, false, err
+		}
+	}
+	if h.ContentLen > len(b)-h.HeaderLen {
+		return h, false, ErrTruncated
+	}
+	return h, canon, nil
+}
+
+// DecodeFirstLenient decodes the first value of b under the lenient rules.
+// canon reports whether the consumed bytes are canonical throughout.
+func DecodeFirstLenient(b []byte) (it Item, rest []byte, canon bool, err error) {
+	h, canon, err := SplitHeaderLenient(b)
+	if err != nil {
+		return Item{}, nil, false, err
+	}
+	content := b[h.HeaderLen : h.HeaderLen+h.ContentLen]
+	rest = b[h.HeaderLen+h.ContentLen:]
+	if !h.IsList {
+		return S(content), rest, canon, nil
+	}
+	it = Item{IsList: true, List: []Item{}}
+	for len(content) > 0 {
+		c, r, cc, err := DecodeFirstLenient(content)
+		if err != nil {
+			return Item{}, nil, false, err
+		}
+		canon = canon && cc
+		it.List = append(it.List, c)
+		content = r
+	}
+	return it, rest, canon, nil
+}
+
+// Classify classifies b as exactly one value.
+func Classify(b []byte) Class {
+	_, rest, canon, err := DecodeFirstLenient(b)
+	if err != nil || len(rest) != 0 {
+		return Malformed
+	}
+	if canon {
+		return Canonical
+	}
+	return NonCanonical
+}
+
+// Form selects how one header is written by EncodeForm.
+type Form struct {
+	// Long forces the long (length-prefixed) header form even for payloads < 56.
+	Long bool
+	// LenBytes is the number of length bytes in long form (0 = minimal); values
+	// larger than minimal produce leading zero bytes. Capped at 8.
+	LenBytes int
+	// WrapSingle writes a single byte < 0x80 as 0x81 b.
+	WrapSingle bool
+}
+
+// EncodeForm encodes the item tree, asking form for the header form of every
+// string and list (payloadLen is the content length). The zero Form is canonical.
+func EncodeForm(it Item, form func(it Item, payloadLen int) Form) []byte {
+	if it.Raw != nil {
+		return append([]byte{}, it.Raw...)
+	}
+	var payload []byte
+	small, large := byte(0x80), byte(0xb7)
+	if it.IsList {
+		small, large = 0xc0, 0xf7
+		for _, c := range it.List {
+			payload = append(payload, EncodeForm(c, form)...)
+		}
+	} else {
+		payload = it.Str
+	}
+	f := form(it, len(payload))
+	if !it.IsList && len(payload) == 1 && payload[0] < 0x80 && !f.WrapSingle && !f.Long {
+		return []byte{payload[0]}
+	}
+	if len(payload) <= 55 && !f.Long {
+		return append([]byte{small + byte(len(payload))}, payload...)
+	}
+	l := beLen(len(payload))
+	n := f.LenBytes
+	if n > 8 {
+		n = 8
+	}
+	if len(l) == 0 {
+		l = []byte{0}
+	}
+	for len(l) < n {
+		l = append([]byte{0}, l...)
+	}
+	return append(append([]byte{large + byte(len(l))}, l...), payload...)
+}
+
+// MaxDepth returns the list nesting depth of an item (a string has depth 0).
+func MaxDepth(it Item) int {
+	if !it.IsList || it.Raw != nil {
+		return 0
+	}
+	d := 0
+	for _, c := range it.List {
+		if x := MaxDepth(c); x > d {
+			d = x
+		}
+	}
+	return d + 1
+}
